@@ -100,7 +100,12 @@ def Z19(n=2, buf=1, mx=2):     # a parameter out-port nobody consumes beside a f
                 procs=[src("s", items(n)), cmd("a", ["in"]), cmd("b", ["x"]), psrc("ps", ["k1", "k2", "k3"])],
                 edges=[E("s.out", "a.in"), E("a.out", "b.x")])
 
-ZOO = dict(Z17=Z17, Z18=Z18, Z19=Z19, Z1=Z1, Z2=Z2, Z3=Z3, Z4=Z4, Z5=Z5, Z6=Z6, Z7=Z7, Z8=Z8, Z9=Z9, Z10=Z10, Z13=Z13, Z14=Z14,
+def Z5c(n=3, m=1, buf=1, mx=2):  # the longer stream of a two-port process is produced by TASKS of an upstream process
+    return dict(name="Z5c", max=mx, bufsize=buf,
+                procs=[src("s1", items(n, "a")), cmd("a", ["in"]), src("s2", items(m, "b")), cmd("j", ["x", "y"])],
+                edges=[E("s1.out", "a.in"), E("a.out", "j.x"), E("s2.out", "j.y")])
+
+ZOO = dict(Z17=Z17, Z18=Z18, Z19=Z19, Z5c=Z5c, Z1=Z1, Z2=Z2, Z3=Z3, Z4=Z4, Z5=Z5, Z6=Z6, Z7=Z7, Z8=Z8, Z9=Z9, Z10=Z10, Z13=Z13, Z14=Z14,
            Z15=Z15, Z16=Z16, Z5b=Z5b)
 
 # ----------------------------------------------------------------------------
